@@ -68,11 +68,11 @@ func genShapes(n int) []*shape {
 }
 
 // radices gives, per node, the list of alphabet indices allowed there.
-func (sh *shape) radices(all []int) [][]int {
+func (sh *shape) radices(all, conts []int) [][]int {
 	r := make([][]int, sh.n)
 	for i := 0; i < sh.n; i++ {
 		if sh.internal[i] {
-			r[i] = containers
+			r[i] = conts
 		} else {
 			r[i] = all
 		}
